@@ -1290,10 +1290,10 @@ pub fn server_message_classification() -> Value {
 /// C09: when a send fails, the call whose own message failed (and earlier pending ones) complete with the disconnect CAUSE —
 /// never with the placeholder saying the cause is unknown.
 pub fn client_send_failure_reports_cause() -> Value {
-	for (what, fail_at, threads) in [("call", 1usize, 1usize), ("call", 1, 4), ("second call", 2, 1), ("batch", 1, 1), ("subscribe", 1, 1)] {
+	for (what, fail_at, threads, close_fails) in [("call", 1usize, 1usize, false), ("call", 1, 4, false), ("second call", 2, 1, false), ("batch", 1, 1, false), ("subscribe", 1, 1, false), ("call", 1, 1, true), ("second call", 2, 1, true)] {
 		let rt = tokio::runtime::Builder::new_multi_thread().worker_threads(threads).enable_all().build().unwrap();
 		let out = rt.block_on(async move {
-			let (c, _peer) = mock::failing_client(ClientBuilder::default().request_timeout(std::time::Duration::from_secs(3)), fail_at);
+			let (c, _peer) = mock::failing_client2(ClientBuilder::default().request_timeout(std::time::Duration::from_secs(3)), fail_at, close_fails);
 			let c = std::sync::Arc::new(c);
 			let mut errs: Vec<String> = Vec::new();
 			if what == "second call" {
@@ -1319,11 +1319,11 @@ pub fn client_send_failure_reports_cause() -> Value {
 		let joined = out.join(" | ");
 		if joined.contains("could not be found") || !joined.contains("broken pipe") || joined.contains("Elapsed") || joined.contains("timeout") {
 			return json!({"probe":"client_send_failure_reports_cause","disagrees":true,
-				"input": format!("{what}: the transport's send fails with 'broken pipe' on message #{fail_at}; close() takes 50 ms; {threads} worker thread(s)"),
+				"input": format!("{what}: the transport's send fails with 'broken pipe' on message #{fail_at}; close() takes 50 ms{}; {threads} worker thread(s)", if close_fails {" and then fails too"} else {""}),
 				"observed": joined, "expected":"every affected call fails with an error carrying the cause (broken pipe); on_disconnect resolves"});
 		}
 	}
-	json!({"probe":"client_send_failure_reports_cause","disagrees":false,"histories_tried":5})
+	json!({"probe":"client_send_failure_reports_cause","disagrees":false,"histories_tried":7})
 }
 
 // ------------------------------------------------------------------------------------------
